@@ -880,32 +880,10 @@ def factory_rules(index: RepoIndex, rep, rule: str) -> None:
                   f'{r} factory passes values through')
     f = facts['reset']
     w = walk_function(f.node)
-    order = []
-    for e in w.events:
-        if e.kind == 'call':
-            fs = src(e.node.func)
-            if fs == 'functools.partial':
-                fs = 'partial'
-            if fs in ('import_if_custom', 'checkraise_kwargs', 'select_kwargs', 'partial',
-                      'inspect.signature'):
-                # inspect.signature is pure: reading it again changes nothing
-                if not (fs == 'inspect.signature' and order and order[-1] == fs):
-                    order.append(fs)
-        if e.kind == 'load' and src(e.node.value).endswith('_function_registry'):
-            order.append('lookup')
-    want = ['import_if_custom', 'lookup', 'inspect.signature', 'checkraise_kwargs',
-            'select_kwargs', 'partial']
-    if 'inspect.signature' not in order:
-        from ..pinned_names import METHODS
-        new_calls = sorted({e.node.func.attr for e in w.events if e.kind == 'call'
-                            and isinstance(e.node.func, ast.Attribute)
-                            and src(e.node.func.value).endswith('_function_registry')
-                            and e.node.func.attr not in METHODS})
-        if new_calls:
-            # the required / optional split moved into a registry method the pinned tree did
-            # not have (possibly memoised): a different mechanism, not a verdict
-            raise AnalysisError(f'factory: parameter names come from the new registry '
-                                f'method(s) {new_calls} (outside the grammar of C17.R4)')
+    # the order of the pipeline steps, read on the normal form (inspect.signature is pure and
+    # may have moved into a registry method: it is not part of the order)
+    order = [x for x in base['order'] if x != 'inspect.signature']
+    want = ['import_if_custom', 'lookup', 'checkraise_kwargs', 'select_kwargs', 'partial']
     rep.check(order == want, rule, ROLE_FILE['reset'], 'factory', f.node.lineno,
               ' -> '.join(order), f'factory pipeline is {order}, documented {want}',
               'factory pipeline order')
@@ -979,6 +957,28 @@ def factory_rules(index: RepoIndex, rep, rule: str) -> None:
             len(rt_.keywords[0].value.args) == 2 and \
             src(rt_.keywords[0].value.args[0]) == 'kwargs' and \
             keyset(rt_.keywords[0].value.args[1]) == (params_e, 'all')
+    if not ok:
+        # names the pinned tree did not have and the normal form could not read through (a
+        # memoised registry method, a helper with its own control flow): not a verdict
+        from ..pinned_names import FUNCTIONS as _PF, METHODS as _PM
+        unread = set()
+        for t_ in [base['check'] or ''] + list(base['ret']):
+            try:
+                te = ast.parse(t_, mode='eval').body
+            except SyntaxError:
+                continue
+            for n_ in ast.walk(te):
+                if isinstance(n_, ast.Call) and isinstance(n_.func, ast.Attribute) and \
+                        src(n_.func.value) == 'REGISTRY' and n_.func.attr not in _PM:
+                    unread.add(n_.func.attr)
+                if isinstance(n_, ast.Call) and isinstance(n_.func, ast.Name) and \
+                        n_.func.id not in _PF and index.resolve_name(f.module, n_.func.id) \
+                        is not None and n_.func.id not in ('partial',):
+                    unread.add(n_.func.id)
+        if unread:
+            raise AnalysisError(f'factory: parameter names come from {sorted(unread)}, which '
+                                f'the normal form does not read through (outside the grammar '
+                                f'of C17.R4)')
     rep.check(ok, rule, ROLE_FILE['reset'], 'factory', f.node.lineno,
               f'{base["check"]}; {base["ret"]}'[:300],
               'the required/optional split, the required-key check, the key selection or the '
